@@ -560,7 +560,7 @@ class HistoryRunner:
                 delta = flat.reshape(base.shape)
             nv = base + delta
             return WeightedTensor(nv, cur.weight) if isinstance(cur, WeightedTensor) else nv
-        return rand_value(self.rng, info["shape"], self.extreme)
+        return rand_value(self.rng, info["shape"], self.extreme) * getattr(self, "value_scale", 1.0)
 
     def _forbidden_now(self, name):
         """True if reading `name` now would break the documented partial-revert precondition."""
